@@ -1039,3 +1039,129 @@ Proof.
   rewrite (Hc i) by lia. replace ((0 <=? i) && (i <? 0 + Z.of_nat (length colors))) with true by lia.
   rewrite Z.sub_0_r. reflexivity.
 Qed.
+
+(* ---- Debug output parsed back by from_pattern -------------------------------------------------------- *)
+Lemma NS_SIZE : Z.of_nat NS = SIZE.
+Proof. reflexivity. Qed.
+
+Lemma NSNS_NCELLS : Z.to_nat NCELLS = (NS * NS)%nat.
+Proof. vm_compute. reflexivity. Qed.
+
+Lemma list_eqb_refl l : list_eqb l l = true.
+Proof.
+  induction l as [|x l IH]; cbn [list_eqb]; [reflexivity|]. rewrite IH, andb_true_r. apply opt_eqb_spec. reflexivity.
+Qed.
+
+Lemma In_firstn {A} n (l : list A) x : In x (firstn n l) -> In x l.
+Proof. intros H. rewrite <- (firstn_skipn n l). apply in_or_app. left. exact H. Qed.
+
+Lemma row_is_empty_spec row : row_is_empty row = true -> Forall (fun c => c = None) row.
+Proof.
+  unfold row_is_empty. rewrite forallb_forall. intros H. apply Forall_forall. intros c Hc.
+  specialize (H c Hc). destruct c; [discriminate|reflexivity].
+Qed.
+
+Lemma Forall_concat {A} (Q : A -> Prop) (ll : list (list A)) : Forall (Forall Q) ll -> Forall Q (concat ll).
+Proof. induction 1; cbn [concat]; [constructor|apply Forall_app; split; assumption]. Qed.
+
+(* the row function of from_pattern (mod.rs:547-556) *)
+Definition pattern_row (m : mapping) (row : list Z) : result (list (option Z)) :=
+  bind (mapM (pattern_char m) row) (fun cs => Ok (pad (Z.to_nat SIZE) None cs)).
+
+Lemma from_pattern_checked m pat :
+  (match pat with [] => 0 | r :: _ => zlen r end) <= SIZE ->
+  zlen pat <= SIZE ->
+  Forall (fun r => zlen r = match pat with [] => 0 | r :: _ => zlen r end) pat ->
+  from_pattern m pat =
+    bind (mapM (pattern_row m) pat) (fun rows =>
+      bind (store_from (PositiveMap.empty Z) 0 (pad (Z.to_nat NCELLS) None (concat rows))) (fun c => Ok (D c false false))).
+Proof.
+  intros Hw Hh Hr. unfold from_pattern. cbv zeta.
+  set (w := match pat with [] => 0 | r :: _ => zlen r end) in *.
+  replace (w <=? SIZE) with true by lia. replace (zlen pat <=? SIZE) with true by lia. cbn [negb].
+  replace (forallb (fun r => zlen r =? w) pat) with true; [reflexivity|].
+  symmetry. apply forallb_forall. intros r Hin. rewrite Forall_forall in Hr. specialize (Hr r Hin). lia.
+Qed.
+
+Definition display_over (m : mapping) (d : display) : Prop :=
+  forall p v, get_pixel d p = Ok (Some v) -> In v (colset m).
+
+Lemma cells_list_valid m d : display_over m d -> Forall (cell_valid m) (cells_list d).
+Proof.
+  intros H. unfold cells_list. apply Forall_forall. intros c Hc. apply in_map_iff in Hc. destruct Hc as [i [<- Hi]].
+  apply In_range in Hi. destruct (idx_pt i Hi) as [Ei Hd]. destruct (cell (cells d) i) as [v|] eqn:Ec; cbn [cell_valid]; [|exact I].
+  apply (H (pt i)). rewrite get_pixel_gp. unfold gp. apply in_displayb_spec in Hd. rewrite Hd, Ei, Ec. reflexivity.
+Qed.
+
+Lemma debug_rows_eq m d :
+  debug_rows m d = mapM (mapM (enc m)) (firstn (NS - empty_rows d) (chunks NS (cells_list d))).
+Proof. reflexivity. Qed.
+
+Lemma empty_rows_eq d : empty_rows d = length (take_while row_is_empty (rev (chunks NS (cells_list d)))).
+Proof. reflexivity. Qed.
+
+(* the list-level core: L = the 4096 cells *)
+Lemma debug_then_pattern_core m (L : list (option Z)) :
+  In m all_mappings -> Forall (cell_valid m) L -> length L = (NS * NS)%nat ->
+  let R := chunks NS L in
+  let e := length (take_while row_is_empty (rev R)) in
+  exists chrows, mapM (mapM (enc m)) (firstn (NS - e) R) = Ok chrows /\ Forall (Forall (char_valid m)) chrows /\
+    from_pattern m chrows =
+      bind (store_from (PositiveMap.empty Z) 0 L) (fun c => Ok (D c false false)).
+Proof.
+  intros Hm Hval HLl. cbv zeta.
+  assert (concat (chunks NS L) = L /\ length (chunks NS L) = NS /\ Forall (fun r => length r = NS) (chunks NS L)) as HR.
+  { unfold chunks. apply chunks_fuel_spec.
+    - vm_compute. lia.
+    - exact HLl.
+    - rewrite HLl. assert (1 <= NS)%nat by (vm_compute; lia). nia. }
+  destruct HR as [HRc [HRl HRr]].
+  remember (chunks NS L) as R eqn:ER. clear ER.
+  pose proof (trailing_split row_is_empty R) as HT. cbv zeta in HT. destruct HT as [He HT].
+  remember (length (take_while row_is_empty (rev R))) as e eqn:Ee. clear Ee.
+  rewrite HRl in HT, He.
+  remember (NS - e)%nat as k eqn:Ek.
+  assert (Forall (Forall (cell_valid m)) R) as HvalR.
+  { apply Forall_forall. intros r Hr. apply Forall_forall. intros c Hc. rewrite Forall_forall in Hval. apply Hval.
+    rewrite <- HRc. apply in_concat. exists r. auto. }
+  destruct (mapM_roundtrip (mapM (enc m)) (pattern_row m) (fun chs => length chs = NS /\ Forall (char_valid m) chs) (firstn k R))
+    as [chrows [E1 [E2 [E3 E4]]]].
+  { intros r Hr. apply In_firstn in Hr.
+    rewrite Forall_forall in HvalR, HRr. specialize (HvalR r Hr). specialize (HRr r Hr). rewrite Forall_forall in HvalR.
+    destruct (mapM_roundtrip (enc m) (pattern_char m) (char_valid m) r) as [chs [F1 [F2 [F3 F4]]]].
+    { intros c Hc. apply enc_roundtrip; auto. }
+    exists chs. split; [assumption|]. unfold pattern_row. rewrite F2. cbn [bind].
+    rewrite pad_exact by (rewrite HRr; reflexivity). split; [reflexivity|]. split; [congruence|assumption]. }
+  assert (length (firstn k R) = k) as Hk by (rewrite firstn_length, HRl; lia).
+  exists chrows. split; [exact E1|]. split.
+  { revert E4. apply Forall_impl. intros r [_ H]. exact H. }
+  assert (Forall (fun r => zlen r = SIZE) chrows) as Hlen.
+  { apply Forall_forall. intros r Hr. rewrite Forall_forall in E4. destruct (E4 r Hr) as [Hl _]. unfold zlen. rewrite Hl. apply NS_SIZE. }
+  rewrite from_pattern_checked.
+  - rewrite E2. cbn [bind]. f_equal. f_equal.
+    rewrite <- HRc. rewrite <- (firstn_skipn k R) at 2. rewrite concat_app.
+    apply pad_none_tail.
+    + apply Forall_concat. revert HT. apply Forall_impl. intros r. apply row_is_empty_spec.
+    + rewrite <- concat_app, firstn_skipn, HRc, HLl. symmetry. apply NSNS_NCELLS.
+  - destruct chrows as [|r t]; [pose proof SIZE_pos; lia|]. inversion Hlen; subst. lia.
+  - unfold zlen. rewrite E3, Hk. rewrite <- NS_SIZE. lia.
+  - destruct chrows as [|r t]; [constructor|]. inversion Hlen as [|? ? Hr Ht]; subst. rewrite Hr.
+    constructor; assumption.
+Qed.
+
+(* C20 pattern_debug_roundtrip, direction Debug -> from_pattern: the rows printed by Debug for a display whose colours
+   all have a character are accepted by from_pattern and give back a display with the same 4096 cells *)
+Theorem debug_then_pattern m d :
+  In m all_mappings -> display_over m d ->
+  exists rows d', debug_rows m d = Ok rows /\ Forall (Forall (char_valid m)) rows /\
+                  from_pattern m rows = Ok d' /\ mock_eq d' d = true.
+Proof.
+  intros Hm Hd.
+  pose proof (debug_then_pattern_core m (cells_list d) Hm (cells_list_valid m d Hd) (cells_list_length d)) as H.
+  cbv zeta in H. destruct H as [chrows [E1 [E2 E3]]].
+  destruct (store_from_cells_list (cells_list d) (PositiveMap.empty Z) (cells_list_length d)) as [c' [Es Hc']].
+  rewrite Es in E3. cbn [bind] in E3.
+  exists chrows, (D c' false false).
+  split; [rewrite debug_rows_eq, empty_rows_eq; exact E1|]. split; [exact E2|]. split; [exact E3|].
+  unfold mock_eq. rewrite Hc'. apply list_eqb_refl.
+Qed.
